@@ -9,6 +9,7 @@ import (
 	"fmt"
 	"io"
 	"os"
+	"runtime/debug"
 	"strings"
 	"sync"
 	"sync/atomic"
@@ -43,15 +44,43 @@ func runTasks(r *core.Run, bodies []func(), strategy string) schedStats {
 	t := r.Tape
 	n := len(bodies)
 	st := schedStats{}
+	var panicMu sync.Mutex
+	taskPanic := ""
 	verifsim.Start(n)
 	var wg sync.WaitGroup
 	for i := range bodies {
 		wg.Add(1)
 		go func(i int) {
 			defer wg.Done() // the only real happens-before edge a task contributes: at its very end
-			verifsim.TaskMain(i, bodies[i])
+			verifsim.TaskMain(i, func() {
+				defer func() {
+					if rec := recover(); rec != nil {
+						panicMu.Lock()
+						if taskPanic == "" {
+							taskPanic = fmt.Sprintf("%v\n%s", rec, debug.Stack())
+						}
+						panicMu.Unlock()
+					}
+				}()
+				bodies[i]()
+			})
 		}(i)
 	}
+	defer func() {
+		// a task that panicked: inside the library under ordinary use it is an outcome of the system under
+		// test; anywhere else it is harness trouble
+		panicMu.Lock()
+		tp := taskPanic
+		panicMu.Unlock()
+		if tp == "" {
+			return
+		}
+		if fn := core.LibraryPanicSite(tp); fn != "" {
+			r.Fail("totality", r.Prop+"/library-panic-under-ordinary-use/"+fn, map[string]any{"stack": trunc(tp, 3000)})
+		} else {
+			r.HarnessError("task panic: %s", trunc(tp, 3000))
+		}
+	}()
 	done := make([]bool, n)
 	blocked := make([]bool, n)
 	remaining := n
